@@ -174,6 +174,14 @@ pub fn malformed_rows() -> Vec<(String, &'static str)> {
     add("FFFFFFFFFFFFFFF,PVALID,desc", "15 digits");
     add("0041-00G2,PVALID,desc", "non-hex letter in range end");
     add("00G1-0042,PVALID,desc", "non-hex letter in range start");
+    for k in [9usize, 10, 12, 16, 17, 24] {
+        // over-long hex whose low 32 bits would be a valid code point if high digits were dropped
+        let big = format!("1{}{:04X}", "0".repeat(k.saturating_sub(5)), 0x5A);
+        v.push((format!("{},PVALID,desc", big), "over-long hexadecimal code point"));
+        v.push((format!("0041-{},PVALID,desc", big), "over-long hexadecimal range end"));
+        v.push((format!("{}-{}B,PVALID,desc", big, &big[..big.len() - 1]), "over-long hexadecimal range"));
+    }
+    let mut add = |r: &str, why: &'static str| v.push((r.to_string(), why));
     add(" 0041,PVALID,desc", "code point padded");
     add("0041 ,PVALID,desc", "code point padded right");
     v
@@ -416,6 +424,33 @@ pub fn run(_env: &Env, run: &Run) -> (Stats, Coverage) {
     for s in shards {
         st.merge(s);
     }
+    // (4b) very long descriptions, as single rows and inside files (line-length limits, buffers)
+    {
+        let scratch = Scratch::new();
+        let path = scratch.dir.join("long.csv");
+        for n in [255usize, 256, 1023, 1024, 4000, 4081, 4082, 4083, 4084, 4095, 4096, 4097, 8191, 8192, 8193, 65535, 65536, 70000] {
+            for filler in ["x", "\u{e9}", "a, b"] {
+                let desc: String = filler.repeat(n / filler.len() + 1).chars().take(n).collect();
+                let row = format!("0041-005A,ID_DIS or FREE_PVAL,{}", desc);
+                let spec = RowSpec { start: 0x41, end: Some(0x5A), p1: 5, p2: Some(1), desc: desc.clone() };
+                st.states += 1;
+                st.transitions += 1;
+                check_row_ok(&row, &spec, &mut st);
+                let rows = vec![
+                    PoolRow::Good("0020,ID_DIS or FREE_PVAL,SPACE".into(), RowSpec { start: 0x20, end: None, p1: 5, p2: Some(1), desc: "SPACE".into() }),
+                    PoolRow::Good(row.clone(), spec.clone()),
+                    PoolRow::Bad("110000,PVALID,desc".into(), "above U+10FFFF"),
+                    PoolRow::Good("200C,CONTEXTJ,".into(), RowSpec { start: 0x200C, end: None, p1: 2, p2: None, desc: "".into() }),
+                ];
+                for eol in ["\n", "\r\n"] {
+                    st.transitions += 1;
+                    check_file(&path, &rows, eol, true, &mut st);
+                    st.nontrivial += 1;
+                }
+            }
+        }
+        let _ = std::fs::remove_file(&path);
+    }
     // (5) the real registry file, row by row, against the harness's own reader
     {
         let path = verif_dir().join("data/csv/precis-tables-6.3.0.csv");
@@ -462,7 +497,7 @@ pub fn run(_env: &Env, run: &Run) -> (Stats, Coverage) {
     st.sample(json!({"row": "0041,PVALID or,desc", "expected": "Err"}));
     st.sample(json!({"file": "header, good, bad(above U+10FFFF), good (CRLF, no final newline)", "expected": "Ok, Err with line()=3, Ok - in file order"}));
     let cov = Coverage {
-        rule: format!("grammar enumeration: (1) every code point 0..=0x10FFFF as a single-code-point row in 4/5/6-digit upper-case hex, property field and description rotating over all {} property fields (7 names + 49 ordered pairs x 3 spacings) and {} descriptions (empty, commas, ' or ', trailing CR); (2) every range start<=end over {} boundary values x every property field x every description; (3) {} hand-listed malformed rows + systematic deletion/corruption of each field of boundary rows; (4) every file of <= {} rows over a pool of {} rows (6 well-formed, rest malformed) x LF/CRLF x with/without final newline through CsvLineParser::from_path: items in file order, error line() = 1-based line; (5) the real IANA file row by row; expected values are known by construction; non-trivial = range rows, malformed rows, multi-row files", props.len(), DESCS.len(), b.len(), malformed_rows().len(), maxrows, pool.len()),
+        rule: format!("grammar enumeration: (1) every code point 0..=0x10FFFF as a single-code-point row in 4/5/6-digit upper-case hex, property field and description rotating over all {} property fields (7 names + 49 ordered pairs x 3 spacings) and {} descriptions (empty, commas, ' or ', trailing CR); (2) every range start<=end over {} boundary values x every property field x every description; (3) {} hand-listed malformed rows + systematic deletion/corruption of each field of boundary rows; (4) every file of <= {} rows over a pool of {} rows (6 well-formed, rest malformed) x LF/CRLF x with/without final newline through CsvLineParser::from_path: items in file order, error line() = 1-based line; (4b) descriptions of 255..70000 bytes as single rows and inside 4-row files; (5) the real IANA file row by row; expected values are known by construction; non-trivial = range rows, malformed rows, multi-row files", props.len(), DESCS.len(), b.len(), malformed_rows().len(), maxrows, pool.len()),
         alphabet: json!({"names": NAMES, "descriptions": DESCS, "boundary": b.iter().map(|v| format!("{:04X}", v)).collect::<Vec<_>>()}),
         bound_completed: format!("1,114,112 code points x up to 3 spellings; {} ranges x {} x {}; {} files x 4 layouts", ranges.len(), props.len(), DESCS.len(), nfiles),
         exhaustive: false,
